@@ -1,5 +1,5 @@
 \* thorough: every 12-bit half precision significand
 CONSTANTS Level = 2
 SPECIFICATION Spec
-INVARIANTS RangeRuleIsTheInterval IntegerBytesDecodeBack LittleIsReversedBig LengthIsElementsTimesWidth PaddingRule MixingIsAnError FloatLayoutIsTheEncoder LookupIsTheTable EveryCopyTranslatedOnce TwiceIsBothTables PackedAdvance PackedPositions AvrDataKeepsEveryCharacter Emit
+INVARIANTS RangeRuleIsTheInterval IntegerBytesDecodeBack LittleIsReversedBig LengthIsElementsTimesWidth PaddingRule MixingIsAnError FloatLayoutIsTheEncoder LookupIsTheTable EveryCopyTranslatedOnce TwiceIsBothTables PackedAdvance PackedPositions AvrDataKeepsEveryCharacter MultiCharReadings Emit
 CHECK_DEADLOCK FALSE
